@@ -184,7 +184,7 @@ def ref_apply(ref, op):
 
 
 def generate(rng, tier):
-    n = 900 if tier == "quick" else 20000
+    n = 900 if tier == "quick" else 100000
     depth_max = 3 if tier == "quick" else 4
     for _ in range(n):
         members, axes = gen_members(rng)
